@@ -29,7 +29,8 @@ def build(shape: str, fault: dict | None, absent: str = "") -> dict:
                 continue
             steps: list = [("td", f"td:{p}:{phase}"), ("gate", "g"), ("td", f"td2:{p}:{phase}")]
             if fault and fault["path"] == p and fault["phase"] == phase:
-                steps.insert(1 if fault["pos"] == "before" else 2, ("bad-factory",) if fault["cls"] == "K" else ("fail", fault["cls"]))
+                steps.insert(1 if fault["pos"] == "before" else 2,
+                             ("bad-factory",) if fault["cls"] == "K" else ("nested-tree", True) if fault["cls"] == "N" else ("fail", fault["cls"]))
             elif fault and fault.get("handshake") and p != fault["path"] and not nd.get("children") and phase == "start" and p not in ancestors(fault["path"]):
                 # another component is suspended in start_service_task()'s handshake when the failure strikes
                 steps.insert(1, ("svc-hs", f"hs:{p}"))
@@ -94,6 +95,12 @@ class C07(E1Check):
                         # started a self-ending service task (teardown_action=None) behind a resource teardown
                         progs.append({"kind": "fault", "shape": shape, "absent": "", "timeout": 5, "extra": extra,
                                       "fault": {"path": leaves_[-1], "phase": "start", "pos": pos, "cls": "E", "handshake": False}})
+            for p, nd in ps_:
+                for phase in ("prepare", "start"):
+                    # a component starts a sub-tree from inside its own method and that sub-tree fails: the error of THIS tree names
+                    # this component and this phase, its cause is the error of the sub-tree
+                    progs.append({"kind": "fault", "shape": shape, "absent": "", "timeout": 5, "nested_tree": True,
+                                  "fault": {"path": p, "phase": phase, "pos": "after", "cls": "N", "handshake": False}})
             for absent in ("", "noprep"):
                 progs.append({"kind": "timeout", "shape": shape, "absent": absent, "timeout": 5})
             if len(paths(SHAPES[shape])) >= 3:
@@ -224,7 +231,14 @@ class C07(E1Check):
                     fail("wrong-error", f"ComponentStartError.component_type is {exc.component_type!r} for a failure creating {f['path']!r}")
                 cause = exc.__cause__
                 want = {"E": CompFail, "K": KeyError, "G": ExceptionGroup, "T": TimeoutError}.get(f["cls"], CompFail2)
-                if type(cause) is not want or not tree.raised or cause is not tree.raised[0]:
+                if f["cls"] == "N":
+                    # what the component's method raised is the ComponentStartError of the sub-tree it started
+                    inner = getattr(tree, "inner_classes", {}).get(f["path"])
+                    if not isinstance(cause, ComponentStartError) or cause.phase != "preparing" or cause.path != "leaf" or \
+                            inner is None or cause.component_type is not inner[1] or not tree.raised or cause.__cause__ is not tree.raised[0]:
+                        fail("wrong-cause", f"__cause__ is {cause!r} (cause {getattr(cause, '__cause__', None)!r}); the component's method raised the "
+                                            f"ComponentStartError('preparing', 'leaf') of the sub-tree it started")
+                elif type(cause) is not want or not tree.raised or cause is not tree.raised[0]:
                     fail("wrong-cause", f"__cause__ is {cause!r}, the component raised {want.__name__}")
             # siblings still starting are stopped: nothing has to complete before start_component raises - it has raised by the
             # first quiescent point after the failure
